@@ -69,7 +69,13 @@ func (e *endpoint) up() error {
 			e.conns = append(e.conns, c)
 			e.mu.Unlock()
 			if tc, ok := c.(*net.TCPConn); ok && mode != "read" {
-				tc.SetReadBuffer(4096)
+				// (a 4 KB window makes a reading peer crawl at ~30 KB/s — zero-window probes, delayed ACKs —, so that a phase does
+				// not come to rest within its deadline; the slow reader is slow by its own pauses)
+				if mode == "slow" {
+					tc.SetReadBuffer(32768)
+				} else {
+					tc.SetReadBuffer(4096)
+				}
 			}
 			if mode == "blackhole" {
 				continue
@@ -155,13 +161,22 @@ func runC06(raw json.RawMessage) (interface{}, error) {
 		return nil, err
 	}
 	mode := map[string]string{"healthy": "read", "slow_reader": "slow", "absent": "read", "absent_then_up": "read", "blackhole": "blackhole",
-		"close_midstream": "read", "close_under_traffic": "read", "two_dests": "blackhole"}[c.Scenario]
+		"close_midstream": "read", "close_under_traffic": "read", "two_dests": "blackhole", "spool_backlog_blackhole": "blackhole"}[c.Scenario]
 	ep, err := newEndpoint(mode, false)
 	if err != nil {
 		return nil, err
 	}
 	defer ep.down()
-	absent := c.Scenario == "absent" || c.Scenario == "absent_then_up"
+	absent := c.Scenario == "absent" || c.Scenario == "absent_then_up" || c.Scenario == "spool_backlog_blackhole"
+	spool := c.Scenario == "spool_backlog_blackhole"
+	spoolDir := "/nonexistent-spool"
+	if spool {
+		spoolDir, err = ioutil.TempDir("", "c06spool")
+		if err != nil {
+			return nil, err
+		}
+		defer os.RemoveAll(spoolDir)
+	}
 	if !absent {
 		if err := ep.up(); err != nil {
 			return nil, err
@@ -170,8 +185,8 @@ func runC06(raw json.RawMessage) (interface{}, error) {
 	m, _ := matcher.New("", "", "", "", "", "")
 	rn := fresh("c06r")
 	mk := func(addr string) (*dest.Destination, error) {
-		return dest.New(rn, m, addr, "/nonexistent-spool", false, false, 5*time.Millisecond, 20*time.Millisecond, c.ConnBuf, c.IOBuf,
-			10, 1000, 10, time.Hour, time.Millisecond, time.Millisecond)
+		return dest.New(rn, m, addr, spoolDir, spool, false, 5*time.Millisecond, 20*time.Millisecond, c.ConnBuf, c.IOBuf,
+			10, 200*1024*1024, 1000, time.Hour, 10*time.Microsecond, 10*time.Microsecond)
 	}
 	d, err := mk(ep.addr)
 	if err != nil {
@@ -225,22 +240,47 @@ func runC06(raw json.RawMessage) (interface{}, error) {
 	if d2 != nil && !waitOnline(d2) {
 		return nil, fmt.Errorf("second destination did not come online")
 	}
-	var maxDispatch time.Duration
+	var maxDispatchNs int64
 	seq := 0
+	stalled := false
+	// the hand-off runs in its own goroutine so that a call that never returns is reported (as a very slow call) instead of hanging the harness
 	send := func(n int) {
-		for i := 0; i < n; i++ {
-			l := mkLine(seq, c.Size)
-			seq++
-			t0 := time.Now()
-			r.Dispatch(l)
-			if d2 != nil && c.Route != "" && c.Route != "sendAllMatch" {
-				d2.In <- l
+		if stalled {
+			return
+		}
+		var cur int64
+		done := make(chan struct{})
+		first := seq
+		seq += n
+		go func() {
+			for i := 0; i < n; i++ {
+				l := mkLine(first+i, c.Size)
+				t0 := time.Now()
+				atomic.StoreInt64(&cur, t0.UnixNano())
+				r.Dispatch(l)
+				if d2 != nil && c.Route != "" && c.Route != "sendAllMatch" {
+					d2.In <- l
+				}
+				atomic.StoreInt64(&cur, 0)
+				if dt := int64(time.Since(t0)); dt > atomic.LoadInt64(&maxDispatchNs) {
+					atomic.StoreInt64(&maxDispatchNs, dt)
+				}
+				if c.Pace > 0 && i%c.Pace == c.Pace-1 {
+					time.Sleep(time.Millisecond)
+				}
 			}
-			if dt := time.Since(t0); dt > maxDispatch {
-				maxDispatch = dt
-			}
-			if c.Pace > 0 && i%c.Pace == c.Pace-1 {
-				time.Sleep(time.Millisecond)
+			close(done)
+		}()
+		for {
+			select {
+			case <-done:
+				return
+			case <-time.After(50 * time.Millisecond):
+				if t := atomic.LoadInt64(&cur); t != 0 && time.Now().UnixNano()-t > int64(1500*time.Millisecond) {
+					stalled = true
+					atomic.StoreInt64(&maxDispatchNs, time.Now().UnixNano()-t)
+					return
+				}
 			}
 		}
 	}
@@ -284,6 +324,24 @@ func runC06(raw json.RawMessage) (interface{}, error) {
 		phase("up", c.N, d, ep, upSettled(d, ep, c.N))
 	case "blackhole":
 		phase("transition", c.N, d, ep, func(snap) bool { return true })
+	case "spool_backlog_blackhole":
+		// an outage fills the spool; then the endpoint comes back but never reads: the replay of the backlog fills every buffer on the way,
+		// and live traffic must still be taken (dropped and counted) without waiting
+		// (one phase for the whole scenario: a backlog line dropped during the replay is counted as slow_conn too)
+		s0 := take(d, ep)
+		send(c.N)
+		time.Sleep(50 * time.Millisecond)
+		if err := ep.up(); err != nil {
+			return nil, err
+		}
+		if !waitOnline(d) {
+			return nil, fmt.Errorf("destination did not connect once the endpoint came up")
+		}
+		time.Sleep(2500 * time.Millisecond) // the unspool gate opens after two quiet reconnect periods; then the pipe fills
+		send(300)
+		time.Sleep(15 * time.Millisecond)
+		s1 := take(d, ep)
+		phases = append(phases, relayPhase{"transition", int64(c.N + 300), s1.recv - s0.recv, s1.slow - s0.slow, s1.noconn - s0.noconn})
 	case "two_dests":
 		// the sibling of a black-holed destination: everything handed to the route reaches it (or is counted as slow there)
 		phase("up", c.N, d2, ep2, upSettled(d2, ep2, c.N))
@@ -322,10 +380,10 @@ func runC06(raw json.RawMessage) (interface{}, error) {
 	}
 	out := []relayDest{}
 	for _, x := range dests {
-		out = append(out, relayDest{false, hx(x.VerifLog(true)), destDropSlowConn(x.Key), destDropNoConn(x.Key), destDropSlowSpool(x.Key)})
+		out = append(out, relayDest{spool, hx(x.VerifLog(true)), destDropSlowConn(x.Key), destDropNoConn(x.Key), destDropSlowSpool(x.Key)})
 	}
 	go r.Shutdown() // may wait for ever on a black-holed connection
-	return map[string]interface{}{"phases": phases, "dests": out, "max_dispatch_us": maxDispatch.Microseconds()}, nil
+	return map[string]interface{}{"phases": phases, "dests": out, "max_dispatch_us": time.Duration(atomic.LoadInt64(&maxDispatchNs)).Microseconds(), "stalled": stalled}, nil
 }
 
 func init() {
